@@ -369,7 +369,7 @@ def csr_queries(h, cfg):
                         exp = slice_zext(snap, j * dw, (j + 1) * dw, R.element.width, dw)
                         bad.append(z3.And(rs, A == bv(W, start + j), fr[t + 1].sig(bus.r_data) != exp))
                 return assume, z3.Or(*bad)
-            qs.append(Q(f"read-chunks-at-map-offsets-{start}", n + 2, snapshot, max_prefix=3))
+            qs.append(Q(f"read-chunks-at-map-offsets-{start}", n + 2, snapshot, max_prefix=6))
         if el.access.writable() and el.width:
             def wdata(h, fr, idx=idx, start=start, end=end, n=n, conf=conf):
                 R = h.leaves[idx][0]
@@ -389,7 +389,7 @@ def csr_queries(h, cfg):
                     bad.append(z3.And(ws, A == bv(W, end - 1), *have,
                                       fr[t + 1].sig(R.element.w_data) != z3.Extract(R.element.width - 1, 0, cat)))
                 return assume, z3.Or(*bad)
-            qs.append(Q(f"write-chunks-at-map-offsets-{start}", n + 1, wdata, max_prefix=3))
+            qs.append(Q(f"write-chunks-at-map-offsets-{start}", n + 1, wdata, max_prefix=6))
     return qs
 
 
